@@ -174,10 +174,11 @@ Section Types.
 
   Lemma type_lit_denotes : forall t,
       (fx_errlit c = true \/ no_error t = true) ->
+      has_iface_lit t = false ->
       imported t ->
       denotes imps target (fst (type_lit L target c t)) t = true.
   Proof.
-    induction t as [n| | |pkg name ms|e IH|e IH|n e IH|k IHk v IHv]; intros Herr Himp; cbn [type_lit].
+    induction t as [n| | |pkg name ms|e IH|e IH|n e IH|k IHk v IHv|txt]; intros Herr Hif Himp; cbn [type_lit].
     - cbn. apply bytes_eqb_refl.
     - cbn. reflexivity.
     - destruct Herr as [Herr|Herr]; [|cbn in Herr; discriminate]. rewrite Herr. cbn. reflexivity.
@@ -187,29 +188,41 @@ Section Types.
         rewrite resolve_L; [cbn; apply bytes_eqb_refl|]. apply Himp; [cbn; left; reflexivity|exact Ep].
     - destruct (type_lit L target c e) as [o i] eqn:Ee. cbn [fst denotes]. cbn [fst] in IH. apply IH.
       + destruct Herr as [H|H]; [left; exact H|right; exact H].
+      + exact Hif.
       + exact Himp.
     - destruct (type_lit L target c e) as [o i] eqn:Ee. cbn [fst denotes]. cbn [fst] in IH. apply IH.
       + destruct Herr as [H|H]; [left; exact H|right; exact H].
+      + exact Hif.
       + exact Himp.
     - destruct (type_lit L target c e) as [o i] eqn:Ee. cbn [fst denotes]. cbn [fst] in IH.
       rewrite N.eqb_refl. cbn [andb]. apply IH.
       + destruct Herr as [H|H]; [left; exact H|right; exact H].
+      + exact Hif.
       + exact Himp.
     - destruct (type_lit L target c k) as [ok ik] eqn:Ek. destruct (type_lit L target c v) as [ov iv] eqn:Ev.
-      cbn [fst denotes]. cbn [fst] in IHk, IHv. apply andb_true_iff. split.
+      cbn [fst denotes]. cbn [fst] in IHk, IHv. cbn [has_iface_lit] in Hif. apply orb_false_iff in Hif.
+      destruct Hif as [Hifk Hifv]. apply andb_true_iff. split.
       + apply IHk.
         * destruct Herr as [H|H]; [left; exact H|right]. cbn in H. apply andb_true_iff in H. tauto.
+        * exact Hifk.
         * intros p Hp. apply Himp. cbn. apply in_or_app. left. exact Hp.
       + apply IHv.
         * destruct Herr as [H|H]; [left; exact H|right]. cbn in H. apply andb_true_iff in H. tauto.
+        * exact Hifv.
         * intros p Hp. apply Himp. cbn. apply in_or_app. right. exact Hp.
+    - cbn in Hif. discriminate.
   Qed.
+
+  (* known finding unnamed_method_interface_rendered_any: TypeLit prints `any`, which does not denote the type *)
+  Lemma type_lit_iface_refuted : forall txt,
+      denotes imps target (fst (type_lit L target c (TIfaceLit txt))) (TIfaceLit txt) = false.
+  Proof. intros txt. reflexivity. Qed.
 
   (* the import paths type_lit registers are exactly the foreign packages the type mentions *)
   Lemma type_lit_imports : forall t,
       snd (type_lit L target c t) = filter (fun p => negb (bytes_eqb p target)) (ty_pkgs t).
   Proof.
-    induction t as [n| | |pkg name ms|e IH|e IH|n e IH|k IHk v IHv]; cbn [type_lit ty_pkgs filter]; try reflexivity.
+    induction t as [n| | |pkg name ms|e IH|e IH|n e IH|k IHk v IHv|txt]; cbn [type_lit ty_pkgs filter]; try reflexivity.
     - destruct (bytes_eqb pkg target); reflexivity.
     - destruct (type_lit L target c e). exact IH.
     - destruct (type_lit L target c e). exact IH.
@@ -221,7 +234,7 @@ Section Types.
   Lemma type_lit_quals : forall t,
       oty_quals (fst (type_lit L target c t)) = map L (filter (fun p => negb (bytes_eqb p target)) (ty_pkgs t)).
   Proof.
-    induction t as [n| | |pkg name ms|e IH|e IH|n e IH|k IHk v IHv]; cbn [type_lit ty_pkgs filter]; try reflexivity.
+    induction t as [n| | |pkg name ms|e IH|e IH|n e IH|k IHk v IHv|txt]; cbn [type_lit ty_pkgs filter]; try reflexivity.
     - destruct (bytes_eqb pkg target); reflexivity.
     - destruct (type_lit L target c e). exact IH.
     - destruct (type_lit L target c e). exact IH.
@@ -287,7 +300,7 @@ Section Copy.
     { intros fc i0 H. assert (Hs : s = select_named (f_name f) fc) by congruence.
       rewrite Hs. apply select_named_field. }
     unfold field_stmt.
-    destruct (f_ty f) as [n| | |pkg name ms|e|e|n e|k v] eqn:Et.
+    destruct (f_ty f) as [n| | |pkg name ms|e|e|n e|k v|txt] eqn:Et.
     - intros H; inversion H; split; reflexivity.
     - intros H; inversion H; split; reflexivity.
     - destruct b; [apply Hsel|].
@@ -299,6 +312,7 @@ Section Copy.
     - destruct (type_lit L target c (TSlice e)). intros H; inversion H; split; reflexivity.
     - intros H; inversion H; split; reflexivity.
     - destruct (type_lit L target c (TMap k v)). intros H; inversion H; split; reflexivity.
+    - intros H; inversion H; split; reflexivity.
   Qed.
 
   (* statements that call a method: only for named (or error) field types *)
@@ -526,7 +540,7 @@ Section Scoping.
     { intros fc i0 H. assert (Hs : s = select_named (f_name f) fc) by congruence.
       rewrite Hs. apply select_named_quals. }
     unfold field_stmt.
-    destruct (f_ty f) as [n| | |pkg name ms|e|e|n e|k v] eqn:Et.
+    destruct (f_ty f) as [n| | |pkg name ms|e|e|n e|k v|txt] eqn:Et.
     - intros H; inversion H; left; reflexivity.
     - intros H; inversion H; left; reflexivity.
     - destruct b; [intros H; left; eapply Hsel; exact H|].
@@ -540,6 +554,7 @@ Section Scoping.
     - intros H; inversion H; left; reflexivity.
     - destruct (type_lit L target c (TMap k v)) as [o oi] eqn:El. intros H; inversion H. right.
       split; reflexivity.
+    - intros H; inversion H; left; reflexivity.
   Qed.
 
   Lemma gen_stmts_quals : forall omit repl fs acc imps ss i q,
@@ -642,7 +657,7 @@ Section Main.
     destruct (omitted omit (f_name f)); [apply IH; exact He|].
     assert (Hs : exists s j, field_stmt L target c
                    (match lookup (f_name f) repl with Some _ => true | None => false end) f = GOk s j).
-    { unfold field_stmt. destruct (f_ty f) as [n| | |pkg name ms|e|e|n e|k v]; eauto.
+    { unfold field_stmt. destruct (f_ty f) as [n| | |pkg name ms|e|e|n e|k v|txt]; eauto.
       - destruct (match lookup (f_name f) repl with Some _ => true | None => false end); eauto.
         rewrite He. eauto.
       - destruct (match lookup (f_name f) repl with Some _ => true | None => false end); eauto.
@@ -728,7 +743,7 @@ Section Main.
       is_call s = false.
   Proof.
     intros f s j H Hn. unfold field_stmt in H.
-    destruct (f_ty f) as [n| | |pkg name ms|e|e|n e|k v] eqn:Et.
+    destruct (f_ty f) as [n| | |pkg name ms|e|e|n e|k v|txt] eqn:Et.
     - inversion H; reflexivity.
     - inversion H; reflexivity.
     - destruct (fx_errnil c); [|discriminate]. inversion H; reflexivity.
@@ -737,6 +752,7 @@ Section Main.
     - destruct (type_lit L target c (TSlice e)). inversion H; reflexivity.
     - inversion H; reflexivity.
     - destruct (type_lit L target c (TMap k v)). inversion H; reflexivity.
+    - inversion H; reflexivity.
   Qed.
 
   (* a foreign named type without methods called DeepCopyAs / DeepCopyIntoAs is assigned *)
